@@ -298,18 +298,21 @@ def check(P: Project, R: Report) -> None:
 
     # ------------------------------------------------------------------ R6: an error answer is never the result
     R.rule("R6", "the payload of the matched response: the routine the wait hands the matched message to returns a value only on a path that established that the message carries no `error` member (`… is None`, not mere falsiness — an empty error object is still an error answer); with an error member it raises")
-    procs = []
-    for r_ in walk_local(W.wait.node):
-        if isinstance(r_, ast.Return) and isinstance(r_.value, ast.Call):
-            g_ = P.resolve_call(W.wait, r_.value)
-            if isinstance(g_, FuncInfo) and g_ not in procs:
-                procs.append(g_)
-    if not procs:
-        procs = [W.wait]
+    def _reads_error(g) -> bool:
+        for x in walk_local(g.node):
+            if isinstance(x, ast.Call) and call_name(x) == "getattr" and len(x.args) >= 2 and isinstance(x.args[1], ast.Constant) and x.args[1].value == "error":
+                return True
+            if isinstance(x, ast.Call) and isinstance(x.func, ast.Attribute) and x.func.attr == "get" and x.args and isinstance(x.args[0], ast.Constant) and x.args[0].value == "error":
+                return True
+            if isinstance(x, ast.Attribute) and x.attr == "error" and isinstance(x.ctx, ast.Load) and not (isinstance(x.value, ast.Name) and x.value.id in ("logging", "logger", "log", "self")):
+                return True
+        return False
+
+    # the routine(s) of the request helper's module that read the error member of a message: the wait itself, what it
+    # hands the matched message to, or what send_message applies to the wait's result
+    procs = [g for g in P.funcs_in(W.send.module.name) if _reads_error(g)]
     n6 = 0
     for g_ in procs:
-        if not any(isinstance(c_, ast.Constant) and c_.value == "error" for c_ in ast.walk(g_.node)) and not any(isinstance(a_, ast.Attribute) and a_.attr == "error" for a_ in ast.walk(g_.node)):
-            continue
         R.fn(g_.fq)
         ga_, go_ = run_paths(g_.node, fallible=False)
         for st_, node_ in go_.ret:
